@@ -395,6 +395,10 @@ def temporal_case(ctx, rng, idx):
     cfg.invalid_rate = 0.1  # refused calls are part of the build: they must leave no trace in what is measured
     cfg.avoid = {"copy", "clear"}
     cfg.n_ops = rng.randint(5, 25)
+    if idx in (7, 15) or (ctx.tier == "thorough" and idx % 800 == 23):
+        # "all times": non-negative integers have no upper bound (beyond 2**53, 2**63 and 2**64 included)
+        cfg.time_pool = [0, 7, 2**53 + 1, 2**63 - 1, 2**63, 2**64 + 5, 10**30]
+        ctx.event("huge-time-stamps")
     try:
         live, _ = history.run_history(NullCtx(), rng, cfg, battery_every=0)
     except Exception as e:
